@@ -218,6 +218,26 @@ func (g *seqGen) fid(conn int, bound bool) uint64 {
 	return uint64(g.r.Intn(int(g.maxfid) + 1))
 }
 
+// samePathFid returns another fid of conn bound to the same path as fid (fid
+// itself if there is none).
+func (g *seqGen) samePathFid(conn int, fid uint64) uint64 {
+	f := g.w.Conns[conn][fid]
+	if f == nil {
+		return fid
+	}
+	var ids []uint64
+	for id, o := range g.w.Conns[conn] {
+		if id != fid && o.X == 0 && join2(o.Path) == join2(f.Path) {
+			ids = append(ids, id)
+		}
+	}
+	if len(ids) == 0 {
+		return fid
+	}
+	sort.Slice(ids, func(i, j int) bool { return ids[i] < ids[j] })
+	return ids[g.r.Intn(len(ids))]
+}
+
 func (g *seqGen) childName(conn int, fid uint64) string {
 	if f := g.w.Conns[conn][fid]; f != nil && g.r.Chance(75) {
 		if n := g.fs.Lookup("/" + join2(f.Path)); n != nil && len(n.Children) > 0 {
@@ -321,6 +341,10 @@ func (g *seqGen) next() (conn int, a areq) {
 			return conn, R(wire.Trename, f, g.fid(conn, true), fresh)
 		case 2:
 			return conn, R(wire.Tremove, f)
+		case 3:
+			// an entry renamed onto itself, preferably through two different
+			// fids on one directory: nothing changes, nothing may be fenced
+			return conn, R(wire.Trenameat, f, nm, g.samePathFid(conn, f), nm)
 		default:
 			return conn, R(wire.Trenameat, f, nm, g.fid(conn, true), fresh)
 		}
